@@ -39,4 +39,20 @@ def px2ToF64 (n : Nat) : Bool :=
   Sweep.all1 (2 ^ n) fun a => match crate.pxe2.convert.PxE2.to_f64 (UInt32.ofNat n) (emb n a) with
     | .ok r => r.bits.toNat == Spec.toF64 (Spec.px2 n) a
     | .error _ => false
+
+/-- generic-width → fixed-width and fixed-width → generic-width conversions, both exponent sizes (`fx` = the generic format of width n) -/
+def pxTo8 (fx : Nat → Spec.Fmt) (g : UInt32 → Int32 → Rs.M Int8) (n : Nat) : Bool :=
+  Sweep.all1 (2 ^ n) fun a => Sweep.isOk (g (UInt32.ofNat n) (emb n a)) (Sweep.p8 (Spec.conv (fx n) Spec.p8 a))
+def pxTo16 (fx : Nat → Spec.Fmt) (g : UInt32 → Int32 → Rs.M Int16) (n : Nat) : Bool :=
+  Sweep.all1 (2 ^ n) fun a => Sweep.isOk (g (UInt32.ofNat n) (emb n a)) (Sweep.p16 (Spec.conv (fx n) Spec.p16 a))
+def pxTo32 (fx : Nat → Spec.Fmt) (g : UInt32 → Int32 → Rs.M Int32) (n : Nat) : Bool :=
+  Sweep.all1 (2 ^ n) fun a => Sweep.isOk (g (UInt32.ofNat n) (emb n a)) (Sweep.p32 (Spec.conv (fx n) Spec.p32 a))
+def pxFrom8 (fx : Nat → Spec.Fmt) (g : UInt32 → Int8 → Rs.M Int32) (n : Nat) : Bool :=
+  Sweep.all1 256 fun a => Sweep.isOk (g (UInt32.ofNat n) (Sweep.p8 a)) (emb n (Spec.conv Spec.p8 (fx n) a))
+def pxFrom16 (fx : Nat → Spec.Fmt) (g : UInt32 → Int16 → Rs.M Int32) (n : Nat) : Bool :=
+  Sweep.all1 65536 fun a => Sweep.isOk (g (UInt32.ofNat n) (Sweep.p16 a)) (emb n (Spec.conv Spec.p16 (fx n) a))
+def pxToF64 (fx : Nat → Spec.Fmt) (g : UInt32 → Int32 → Rs.M Rs.F64) (n : Nat) : Bool :=
+  Sweep.all1 (2 ^ n) fun a => match g (UInt32.ofNat n) (emb n a) with
+    | .ok r => r.bits.toNat == Spec.toF64 (fx n) a
+    | .error _ => false
 end SweepG
